@@ -1,6 +1,7 @@
 package c20
 
 import (
+	clicmd "github.com/ajitpratap0/GoSQLX/cmd/gosqlx/cmd"
 	"github.com/ajitpratap0/GoSQLX/pkg/formatter"
 	"github.com/ajitpratap0/GoSQLX/pkg/gosqlx"
 	"github.com/ajitpratap0/GoSQLX/pkg/linter"
@@ -137,6 +138,17 @@ func entries() []entry {
 				sink = gosqlx.ExtractFunctions(t)
 				sink = gosqlx.ExtractMetadata(t)
 				return "ok"
+			})},
+		{name: "CLI.SQLFormatter", doc: "cmd/gosqlx SQLFormatter.Format (the serialiser behind `gosqlx format`), default and compact style", needAST: true,
+			tree: (func(t *ast.AST) string {
+				s1, err := clicmd.NewSQLFormatter(clicmd.FormatterOptions{Indent: "  ", UppercaseKw: true}).Format(t)
+				sink = s1
+				if err != nil {
+					return "rejected"
+				}
+				s2, err := clicmd.NewSQLFormatter(clicmd.FormatterOptions{Compact: true}).Format(t)
+				sink = s2
+				return errClass(err)
 			})},
 		{name: "Format", doc: "gosqlx.Format with the default options",
 			prepare: func(sql string) (func() string, bool) {
